@@ -1086,6 +1086,10 @@ def gen_elem(L, K, rng, moved_targets=False):
                 s = rng.choice(vs)
                 g.lines.append("ecmpr %d %d %d" % (a, s, rng.randrange(len(g.slots[s].elems))))
                 g.stat("ecmpr")
+            if rng.random() < 0.3:
+                s = rng.choice(vs)
+                g.lines.append("ebyteprobe %d %d" % (s, rng.randrange(len(g.slots[s].elems))))
+                g.stat("ebyteprobe")
         elif r < 0.94:
             # independence: change the vector, then look at the elements (and the reverse)
             s = rng.choice(vs)
